@@ -186,6 +186,56 @@ def main(tier):
                     rep.fail("%s returns %r instead of True" % (fname, res), {"value": repr(v)})
                 elif not exp_ok:
                     rep.fail("%s accepts value outside range" % fname, {"value": repr(v)})
+    # the same verdicts in an optimised interpreter (`python -O`: `assert` and `if __debug__` vanish)
+    import json as _json
+    import subprocess as _sp
+
+    probe = (
+        "import sys, json; sys.path.insert(0, %r)\n"
+        "import lsprotocol.types as T, lsprotocol.validators as V, lsprotocol.converters as cv\n"
+        "c = cv.get_converter(); bad = []\n"
+        "MIN, MAX = -2**31, 2**31 - 1\n"
+        "vals = [MIN - 1, MIN, -1, 0, 1, MAX, MAX + 1, 2**32, 2**63, -2**63]\n"
+        "for v in vals:\n"
+        "    for cls, attr, lo in ((T.Position, 'line', 0), (T.Position, 'character', 0)):\n"
+        "        exp = lo <= v <= MAX\n"
+        "        kw = {'line': 0, 'character': 0}; kw[attr] = v\n"
+        "        try: cls(**kw); ok = True\n"
+        "        except Exception: ok = False\n"
+        "        try: c.structure(kw, cls); sok = True\n"
+        "        except Exception: sok = False\n"
+        "        if ok is not exp or sok is not exp: bad.append(['uinteger', attr, v, ok, sok])\n"
+        "    exp = MIN <= v <= MAX\n"
+        "    for ctor, js in ((lambda: T.ResponseError(code=v, message='m'), None), (lambda: T.VersionedTextDocumentIdentifier(uri='u', version=v), {'uri': 'u', 'version': v})):\n"
+        "        try: ctor(); ok = True\n"
+        "        except Exception: ok = False\n"
+        "        if ok is not exp: bad.append(['integer', v, ok])\n"
+        "        if js is not None:\n"
+        "            try: c.structure(js, T.VersionedTextDocumentIdentifier); sok = True\n"
+        "            except Exception: sok = False\n"
+        "            if sok is not exp: bad.append(['integer-parse', v, sok])\n"
+        "class I: pass\n"
+        "class A: name = 'attr_x'\n"
+        "for fn, lo in ((V.integer_validator, MIN), (V.uinteger_validator, 0)):\n"
+        "    for v in vals + [True, 1.0, 0.5, 'x', None, [], {}, (1, 2), (), b'1']:\n"
+        "        exp = isinstance(v, int) and lo <= v <= MAX\n"
+        "        try:\n            r = fn(I(), A(), v); got = 'ok' if r is True else repr(r)\n"
+        "        except ValueError as e:\n            got = 'ValueError' if 'I.attr_x' in str(e) else 'ValueError-without-name'\n"
+        "        except Exception as e:\n            got = type(e).__name__\n"
+        "        if got != ('ok' if exp else 'ValueError'): bad.append([fn.__name__, repr(v), got])\n"
+        "print(json.dumps({'optimised': sys.flags.optimize, 'n': len(bad), 'bad': bad[:8]}))\n" % ctx.pkg_root()
+    )
+    for flags in (["-O"], ["-OO"]):
+        pr = _sp.run([common.PY] + flags + ["-c", probe], capture_output=True, text=True, timeout=300)
+        n_eval += 1
+        try:
+            d = _json.loads(pr.stdout.strip().splitlines()[-1])
+            if not d["optimised"]:
+                rep.inconc("optimised probe did not run optimised")
+            if d["n"]:
+                rep.fail("range enforcement differs in an optimised interpreter (%s)|%s" % (flags[0], d["bad"][0][0]), {"flags": flags, "failures": d["bad"]})
+        except Exception:
+            rep.fail("range probe dies in an optimised interpreter (%s)" % flags[0], {"stderr": pr.stderr[-400:]})
     if have_ic and (counters["integer"] == 0 or counters["uinteger"] == 0):
         rep.inconc("validator contracts evaluated %s times: generated fields bypass the contracted functions" % counters)
     cov = {
